@@ -425,7 +425,7 @@ def _parse_gen_v33(raw, system, sw):
         gen_mva = data[8]
         gen_idx += 1
         status = data[14]
-        wmod = data[26] if len(data) >= 26 else 0
+        wmod = data[26] if len(data) > 26 else 0
 
         param = {'Sn': gen_mva, 'Vn': vn, 'u': status,
                  'bus': bus, 'subidx': subidx,
